@@ -232,7 +232,7 @@ const retryMC = `"retryPolicy":{"maxAttempts":4,"initialBackoff":"0.1s","maxBack
 // run executes one scenario inside a bubble.  viol is called (inside the
 // bubble, so that the verdict is out before a possible bubble-exit panic) for
 // every violated oracle.
-func run(sc scenario, viol func(key, msg string)) *result {
+func run(sc scenario, viol func(key, id, msg string)) *result {
 	res := &result{counters: map[string]int64{}, sigs: map[string]bool{}}
 	clk := e2e.NewClock()
 	net := e2e.NewNet()
@@ -254,7 +254,7 @@ func run(sc scenario, viol func(key, msg string)) *result {
 	}
 	cl, err := e2e.NewClient(net, e2e.ClientConfig{Addrs: []string{"b0", "b1"}, ServiceConfig: e2e.SC(e2e.PolicyName, mc), Ctl: ctl})
 	if err != nil {
-		viol("harness", "client: "+err.Error())
+		viol("harness", "client", "client: "+err.Error())
 		return res
 	}
 	cl.CC.Connect()
@@ -283,6 +283,9 @@ func run(sc scenario, viol func(key, msg string)) *result {
 		}
 		mu.Lock()
 		r.started, r.cancel, r.phase = true, cancel, "newstream"
+		if p.Unary {
+			r.phase = "invoke"
+		}
 		mu.Unlock()
 		var opts []grpc.CallOption
 		if p.WFR {
@@ -303,12 +306,16 @@ func run(sc scenario, viol func(key, msg string)) *result {
 				st, err = cl.CC.NewStream(ctx, &grpc.StreamDesc{ClientStreams: true, ServerStreams: true}, "/verif.C23/Stream", opts...)
 				if err == nil {
 					setPhase(r, "send")
-					for k := 0; k < p.Msgs; k++ {
-						if e := st.SendMsg(make([]byte, p.MsgSize)); e != nil {
+					for k := 0; k < p.Msgs && err == nil; k++ {
+						if e := st.SendMsg(make([]byte, p.MsgSize)); e == io.EOF {
 							break
+						} else if e != nil {
+							err = e // a client-generated error is the RPC's status
 						}
 					}
-					st.CloseSend()
+					if err == nil {
+						st.CloseSend()
+					}
 					setPhase(r, "recv")
 					for err == nil {
 						var m []byte
@@ -338,7 +345,7 @@ func run(sc scenario, viol func(key, msg string)) *result {
 			p := &picks[i]
 			byRID[p.RID] = append(byRID[p.RID], p)
 			if len(p.Dones) > 1 {
-				viol("done-called-twice", fmt.Sprintf("after %q: Done of pick %d (rpc %s, gen %d, %+v) ran %d times: %+v", label, p.ID, p.RID, p.Gen, p.Spec, len(p.Dones), p.Dones))
+				viol("done-called-twice", strconv.Itoa(p.ID), fmt.Sprintf("after %q: Done of pick %d (rpc %s, gen %d, %+v) ran %d times: %+v", label, p.ID, p.RID, p.Gen, p.Spec, len(p.Dones), p.Dones))
 			}
 		}
 		mu.Lock()
@@ -362,18 +369,18 @@ func run(sc scenario, viol func(key, msg string)) *result {
 					} else if !r.finished {
 						why = "all contexts are cancelled and the channel is closed"
 					}
-					viol("done-never-called", fmt.Sprintf("after %q: Done of pick %d (rpc %s, gen %d, %+v, subconn state at pick %v) never ran although %s", label, p.ID, rid, p.Gen, p.Spec, p.SCState, why))
+					viol("done-never-called", strconv.Itoa(p.ID), fmt.Sprintf("after %q: Done of pick %d (rpc %s, gen %d, %+v, subconn state at pick %v) never ran although %s", label, p.ID, rid, p.Gen, p.Spec, p.SCState, why))
 				}
 			}
 			if r.finished {
 				continue
 			}
 			if final {
-				viol("rpc-not-returned", fmt.Sprintf("rpc %s (%+v) has not returned after its context was cancelled and the channel closed (phase %s)", rid, sc.RPCs[i], r.phase))
+				viol("rpc-not-returned", rid, fmt.Sprintf("rpc %s (%+v) has not returned after its context was cancelled and the channel closed (phase %s)", rid, sc.RPCs[i], r.phase))
 				continue
 			}
 			if r.cancelled {
-				viol("cancelled-rpc-not-returned", fmt.Sprintf("after %q: rpc %s was cancelled but has not returned at quiescence (phase %s, picks %d)", label, rid, r.phase, len(ps)))
+				viol("cancelled-rpc-not-returned", rid, fmt.Sprintf("after %q: rpc %s was cancelled but has not returned at quiescence (phase %s, picks %d)", label, rid, r.phase, len(ps)))
 				continue
 			}
 			// where is it parked?
@@ -382,7 +389,7 @@ func run(sc scenario, viol func(key, msg string)) *result {
 				continue
 			}
 			if len(ps) == 0 {
-				viol("rpc-never-picked", fmt.Sprintf("after %q: rpc %s is running, picker generation %d is published, but the RPC never called Pick", label, rid, curGen))
+				viol("rpc-never-picked", rid, fmt.Sprintf("after %q: rpc %s is running, picker generation %d is published, but the RPC never called Pick", label, rid, curGen))
 				continue
 			}
 			last := ps[len(ps)-1]
@@ -403,7 +410,7 @@ func run(sc scenario, viol func(key, msg string)) *result {
 				r.parked = "pick"
 				res.counters["parked_in_pick_checks"]++
 				if last.Gen < curGen {
-					viol("blocked-pick-not-woken", fmt.Sprintf("after %q: rpc %s is blocked for a new picker since pick %d of generation %d (%+v) although generation %d has been published", label, rid, last.ID, last.Gen, last.Spec, curGen))
+					viol("blocked-pick-not-woken", rid+"/"+strconv.Itoa(curGen), fmt.Sprintf("after %q: rpc %s is blocked for a new picker since pick %d of generation %d (%+v) although generation %d has been published", label, rid, last.ID, last.Gen, last.Spec, curGen))
 				}
 			} else if r.phase == "newstream" {
 				r.parked = "quota"
@@ -411,6 +418,31 @@ func run(sc scenario, viol func(key, msg string)) *result {
 		}
 	}
 	audit("init", false)
+	// clientStream holds its mutex while it sleeps a retry backoff.  Closing
+	// the channel fails the in-flight streams with UNAVAILABLE, which a retry
+	// policy turns into such a backoff, while the stream's watcher goroutine
+	// (woken by the same close) parks on that mutex.  A mutex wait is not a
+	// durable block for synctest, so virtual time could never advance again (a
+	// limitation of the bubble, not a grpc defect: in real time the backoff
+	// simply elapses).  With a retry policy the RPC contexts are therefore
+	// cancelled before the channel is closed; without one (transparent retries
+	// only, no timers) the channel is closed under the running RPCs.
+	quietClose := func() {
+		if sc.Retry {
+			mu.Lock()
+			for _, r := range rpcs {
+				if r.started && !r.finished && !r.cancelled {
+					r.cancelled = true
+					r.cancel()
+				}
+			}
+			mu.Unlock()
+			synctest.Wait()
+		} else {
+			res.counters["channel_closed_under_running_rpcs"]++
+		}
+		cl.CC.Close()
+	}
 	next := 0
 	for _, st := range sc.Steps {
 		switch st.K {
@@ -445,7 +477,7 @@ func run(sc scenario, viol func(key, msg string)) *result {
 		case "closecc":
 			if !ccClosed {
 				ccClosed = true
-				cl.CC.Close()
+				quietClose()
 			}
 		}
 		audit(st.K, false)
@@ -458,7 +490,7 @@ func run(sc scenario, viol func(key, msg string)) *result {
 	audit("start-rest", false)
 	if !ccClosed {
 		ccClosed = true
-		cl.CC.Close()
+		quietClose()
 	}
 	audit("closecc-final", false)
 	mu.Lock()
@@ -533,6 +565,7 @@ func run(sc scenario, viol func(key, msg string)) *result {
 		c := ""
 		if r.cancelled {
 			c = "cancelled@"
+			res.counters["cancelled_while_parked_in_"+parked]++
 		}
 		res.sigs[fmt.Sprintf("%s/%s%s/%v/picks%d/notready=%v", kind, c, parked, r.code, np, nr[rid])] = true
 	}
@@ -541,9 +574,9 @@ func run(sc scenario, viol func(key, msg string)) *result {
 
 func TestVerifC23(t *testing.T) {
 	r := vlib.Start(t, "C23")
-	n := r.N(400, 8000)
+	n := r.N(1000, 20000)
 	if os.Getenv("VERIF_LIGHT") != "" {
-		n /= 5
+		n /= 10
 	}
 	fam := "scripted"
 	for i := 0; i < n; i++ {
@@ -555,11 +588,11 @@ func TestVerifC23(t *testing.T) {
 		var res *result
 		seen := map[string]bool{}
 		synctest.Test(t, func(t *testing.T) {
-			res = run(sc, func(key, msg string) {
-				if seen[key+msg] {
+			res = run(sc, func(key, id, msg string) {
+				if seen[key+"/"+id] {
 					return
 				}
-				seen[key+msg] = true
+				seen[key+"/"+id] = true
 				r.Violation(key, fam, i, sc, "%s", msg)
 			})
 		})
@@ -579,6 +612,9 @@ func TestVerifC23(t *testing.T) {
 		}
 		if i < 2 {
 			r.Sample(map[string]any{"scenario": sc, "counters": res.counters})
+		}
+		if r.Violations() > 0 {
+			break // the verdict is in; further cases on a broken tree may wedge a bubble
 		}
 	}
 	r.Finish(vlib.Spec{
